@@ -204,7 +204,7 @@ func runDeadlockCase(r *mon.Run, c DeadlockCase) (join func()) {
 		if c.Kind == "late-inbound-peer" {
 			late.Wait()
 		}
-		if p.waitSinceStart(livenessBound) {
+		if p.waitSinceStart(livenessBound) && p.latency() <= livenessBound {
 			countLatency(r, "deadlock", p.latency())
 			r.Count("deadlock.close_returned_in_time", 1)
 			if !node.WaitRun(livenessBound) {
